@@ -2,6 +2,7 @@
 C12 — the server applies exactly the filter and options the user specified.
 -/
 import DtailModel.Lemmas.Command
+import DtailModel.Lemmas.OptionOrder
 import DtailModel.Lemmas.GenRegex
 namespace Dtail.C12
 open Dtail
@@ -52,12 +53,26 @@ theorem C12_options_roundtrip (env : Env) (show' : Int → Bytes) (hc : IntCodec
     ∃ o, deserializeOptions env (optionList show' r) [] {} = .ok (o, r.ltx) ∧
       modesOf o = (r.quiet, r.plain, r.serverless) := options_roundtrip env show' hc r
 
+/-- **… in every order.**  `SerializeOptions` ranges over a Go map: the options reach the wire in any order.  For every
+    permutation of a request's options the decoder arrives at the same line context and the same session modes
+    (`OptionOrder.render` of `OptionOrder.optsOf r` in canonical order is `optionList`: `C12_options_are_the_option_list`). -/
+theorem C12_options_any_order (env : Env) (show' : Int → Bytes) (hc : IntCodec show') (r : Req)
+    (ys : List OptionOrder.Opt) (hp : ys.Perm (OptionOrder.optsOf r)) :
+    ∃ o, deserializeOptions env (ys.map (OptionOrder.render show')) [] {} = .ok (o, r.ltx) ∧
+      modesOf o = (r.quiet, r.plain, r.serverless) :=
+  OptionOrder.any_order env show' hc r ys hp
+
+theorem C12_options_are_the_option_list (show' : Int → Bytes) (r : Req) :
+    (OptionOrder.optsOf r).map (OptionOrder.render show') = optionList show' r := OptionOrder.optsOf_render show' r
+
+/-- not vacuous: a request with four options, decoded from the reversed list -/
+example : (OptionOrder.optsOf ⟨b!"grep", true, false, true, ⟨2, 0, 5⟩, b!"f", b!"x", false⟩).reverse.Perm
+    (OptionOrder.optsOf ⟨b!"grep", true, false, true, ⟨2, 0, 5⟩, b!"f", b!"x", false⟩) := List.reverse_perm _
+
 /-- The whole request: what the client encodes (`makeCommands`, `SendMessage`) the server
     decodes (`handleCommand`, `readCommand.Start`) to the same command name, file, line
     context, session modes, regex flag and pattern bytes — for every regex (any bytes),
-    every option combination and integer value.  (Options in the canonical order; the
-    order-independence of the decoder is exercised by the differential run, where Go's
-    map iteration permutes them.) -/
+    every option combination and integer value.  (Options in the canonical order here; every other order decodes alike: `C12_options_any_order`.) -/
 theorem C12_roundtrip (env : Env) (b64enc : Bytes → Bytes) (show' : Int → Bytes)
     (hc : IntCodec show') (r : Req)
     (hb64 : ∀ s, env.b64dec (b64enc s) = some s) (hb64sp : ∀ s, SP ∉ b64enc s)
